@@ -33,6 +33,7 @@ TFault == /\ Ev("fault") /\ Fault
           /\ LET w == Rec[l].what IN
              \/ w = "meta_Absent" /\ meta' = "Absent"
              \/ w = "meta_Garbage" /\ meta' = "Garbage"
+             \/ w = "meta_NoHash" /\ meta' = "NoHash"
              \/ w = "idx_Absent" /\ idx' = "Absent"
 TAddDocs == /\ Ev("add_documents") /\ pc = "adddocs"
             /\ staged = Rec[l].from - 1 /\ Rec[l].to <= NDocs /\ Rec[l].from <= Rec[l].to
